@@ -57,7 +57,7 @@ PROPS = {
          "in two is filtered when the record repeats) is replayed on every run.",
          "Defect F13 (mate scores through the table counted from the wrong ply: a mate-in-three move announced as a mate in two from a fresh table; fix d5b26ce) was found by the table-on proof attempt and its ten witness positions stay in the check. With the table ON (MateTwoTableOn*.v, partial): a ply-aware range for every node under every table in range (true only since the repair), iterations 1-3 complete outside the exit bands, a completed fourth iteration stays below the high band; iteration 5 is open. mate-in-two half: a full theorem only for the model's table-less mode (C10_mate_in_two_tableless_partial, with the reference value 32665 attained only by keys); with the table on it is exploration with an independent oracle. Known finding C10-K1 is listed in known_findings.json."),
  "C11": ("proof",
-         'Theorems: fields 1-4 of the exported text = FenSpec.render (abs g) and six well-formed fields, in every reachable game; re-import succeeds with the same position and the same hash, unconditionally for every game reached by legal play; parse (render p) = p; the re-imported game is a start of legal play and has the same legal moves as UCI texts up to order (C11_roundtrip_moves_partial: sanity of the exported position and the buffer bound of the re-imported game are explicit premises, shown satisfiable; without the second premise the re-imported list is still duplicate-free and contained in the original one, C11_roundtrip_moves_incl). The run also re-imports the exported text on the real code (same fields, hash and legal moves), including games of 300 and 396 plies and scripted en-passant / promotion-capture games.',
+         'Theorems: fields 1-4 of the exported text = FenSpec.render (abs g) and six well-formed fields, in every reachable game; re-import succeeds with the same position and the same hash, unconditionally for every game reached by legal play; parse (render p) = p; the re-imported game satisfies the invariant of legal play (C11_reimport_legalinv, no premise beyond legal play) and has the same legal moves as UCI texts up to order (C11_roundtrip_moves_partial: the buffer bound of the re-imported game is the one explicit premise, shown satisfiable; without it the re-imported list is still duplicate-free and contained in the original one, C11_roundtrip_moves_incl). The run also re-imports the exported text on the real code (same fields, hash and legal moves), including games of 300 and 396 plies and scripted en-passant / promotion-capture games.',
          ''),
  "C12": ("proof",
          "Theorems: generated moves are written as Notation.move_text (standard UCI); from_uci (uci m) g = Some m; distinct generated moves have distinct texts; a string of move shape is accepted by the "
